@@ -877,6 +877,12 @@ hwloc__xml_import_object(hwloc_topology_t topology,
     goto error_with_object;
   }
 
+  /* complete sets may be missing in hand-made files, the core needs them */
+  if (obj->cpuset && !obj->complete_cpuset)
+    obj->complete_cpuset = hwloc_bitmap_dup(obj->cpuset);
+  if (obj->nodeset && !obj->complete_nodeset)
+    obj->complete_nodeset = hwloc_bitmap_dup(obj->nodeset);
+
   /* check PUs */
   if (obj->type == HWLOC_OBJ_PU) {
     /* obj->cpuset!=NULL was checked above */
